@@ -488,6 +488,14 @@ class Builder:
                 self.set_value(obj, pi, 'one', depth=depth + 1)
             except Uninstantiable:
                 continue
+        from verif.mdibharness import EXTRA_MEMBERS
+        for name in EXTRA_MEMBERS.get(cls.__name__, ()):
+            # element lists kept outside the declared properties (reference parameters of a header block)
+            el_a = etree.Element(etree.QName(EXT_NS, 'RefParamA'), nsmap={'vx': EXT_NS})
+            el_a.text = 'rp-a'
+            el_b = etree.Element(etree.QName(EXT_NS, 'RefParamB'), nsmap={'vx': EXT_NS})
+            etree.SubElement(el_b, etree.QName(EXT_NS, 'Child')).text = 'rp-b'
+            setattr(obj, name, [el_a, el_b])
         return obj
 
     # ------------------------------------------------------------------ scalar values
